@@ -138,7 +138,7 @@ def listing(fobj):
                        [c.string for c in fobj.get_command_names()], [c.long_name for c in fobj.get_command_options()]])
 
 
-def event(f, fobj, tokens, lenient, parser=None, expect="", recipe=None):
+def event(f, fobj, tokens, lenient, parser=None, mut=None, recipe=None):
     """one request for ArgsParserTrace: observed on `parser` (fresh if None), on a fresh parser, in the other mode;
     also whether argv list / raw tokens / format listings survived the call untouched"""
     from clikit.args import ArgvArgs, DefaultArgsParser
@@ -161,6 +161,6 @@ def event(f, fobj, tokens, lenient, parser=None, expect="", recipe=None):
     ferr, fres, _ = parse_once(DefaultArgsParser(), fobj, f, toks, lenient)
     oerr, ores, _ = parse_once(DefaultArgsParser(), fobj, f, toks, not lenient)
     return {"f": f, "line": [list(t) for t in toks], "lenient": lenient, "obs": {"err": err, "result": res},
-            "fresh": {"err": ferr, "result": fres}, "other": {"err": oerr, "result": ores}, "expect": expect,
+            "fresh": {"err": ferr, "result": fres}, "other": {"err": oerr, "result": ores}, "mut": mut or {"kind": "", "j": 0},
             "untouched": untouched, "hasRecipe": recipe is not None, "recipe": recipe or [],
             "hasExtra": extra is not None, "extra": extra or dict(NOEXTRA)}
